@@ -719,5 +719,160 @@ func genParent(rng *verifh.RNG, poor bool) string {
 	return strings.Join(append([]string{"parent"}, parts...), " ")
 }
 
+// ---------------------------------------------------------------- plain-map sequential reference
+
+// plainSequential is the property's right-hand side with no hypersdk state code at all: the
+// state is a Go map, a tx is its line (declared keys, scripted ops) plus the units the real
+// code charges; transactions are applied one at a time in block order. It shares nothing with
+// tstate / executor / fetcher / fee manager, so a defect there cannot cancel out.
+func plainSequential(parent map[int]uint64, specs []hTxSpec, units []fees.Dimensions, prices, maxUnits fees.Dimensions) string {
+	const max64 = ^uint64(0)
+	st := map[int]uint64{}
+	for k, v := range parent {
+		st[k] = v
+	}
+	var consumed fees.Dimensions
+	var results []string
+	for i, sp := range specs {
+		u := units[i]
+		for d := 0; d < fees.FeeDimensions; d++ {
+			if consumed[d] > max64-u[d] || consumed[d]+u[d] > maxUnits[d] {
+				return "err"
+			}
+		}
+		for d := 0; d < fees.FeeDimensions; d++ {
+			consumed[d] += u[d]
+		}
+		ks, ps, err := parseKeysField(sp.keys)
+		if err != nil {
+			return "err-ref"
+		}
+		perm := map[int]int{}
+		for j, k := range ks {
+			perm[k] = int(ps[j])
+		}
+		acts, err := parseProgField(sp.prog)
+		if err != nil {
+			return "err-ref"
+		}
+		if sp.pre != "1" {
+			return "err"
+		}
+		fee := uint64(0)
+		for d := 0; d < fees.FeeDimensions; d++ {
+			if u[d] != 0 && prices[d] > max64/u[d] {
+				return "err"
+			}
+			c := prices[d] * u[d]
+			if c > max64-fee {
+				return "err"
+			}
+			fee += c
+		}
+		if perm[sp.sponsor]&1 != 1 {
+			return "err"
+		}
+		bal, has := st[sp.sponsor]
+		if bal < fee || !has || perm[sp.sponsor]&5 != 5 {
+			return "err"
+		}
+		st[sp.sponsor] = bal - fee
+		snap := map[int]uint64{}
+		for k, v := range st {
+			snap[k] = v
+		}
+		status := "ok"
+		var outs []string
+	actions:
+		for _, ops := range acts {
+			var cur []string
+			for _, o := range ops {
+				p := perm[o.key]
+				_, present := st[o.key]
+				switch o.kind {
+				case 'g':
+					if p&1 != 1 {
+						status = "fp"
+						break actions
+					}
+					if present {
+						cur = append(cur, strconv.FormatUint(st[o.key], 10))
+					} else {
+						cur = append(cur, "_")
+					}
+				case 'p':
+					if p&5 != 5 || (!present && p&3 != 3) {
+						status = "fp"
+						break actions
+					}
+					st[o.key] = o.val
+				case 'd':
+					if p&5 != 5 {
+						status = "fp"
+						break actions
+					}
+					delete(st, o.key)
+				case 'f':
+					status = "fs"
+					break actions
+				}
+			}
+			if len(cur) == 0 {
+				outs = append(outs, "e")
+			} else {
+				outs = append(outs, strings.Join(cur, "."))
+			}
+		}
+		if status != "ok" {
+			st = snap
+		}
+		o := "-"
+		if len(outs) > 0 {
+			o = strings.Join(outs, "/")
+		}
+		results = append(results, fmt.Sprintf("%d~%s~%d~%s~%s", i, status, fee, dimsStr(u, "."), o))
+	}
+	post := make([]string, hNumKeys)
+	for k := 0; k < hNumKeys; k++ {
+		if v, ok := st[k]; ok {
+			post[k] = fmt.Sprintf("%d:%d", k, v)
+		} else {
+			post[k] = fmt.Sprintf("%d:_", k)
+		}
+	}
+	res := "none"
+	if len(results) > 0 {
+		res = strings.Join(results, "|")
+	}
+	return fmt.Sprintf("ok post=%s res=%s prices=%s consumed=%s", strings.Join(post, ","), res, dimsStr(prices, "."), dimsStr(consumed, "."))
+}
+
+// genRestorePair returns two txs for the "value comes back" pattern on a key k whose value in
+// the parent (or absence) is known: the first deletes or overwrites k, the second (later in the
+// block) writes exactly the parent's value again / deletes a key that was absent. Whatever the
+// view elides as "unchanged" must be judged against the block diff, not the parent.
+func genRestorePair(rng *verifh.RNG, parent map[int]uint64) (*hGenTx, *hGenTx) {
+	k := rng.Intn(hNumActionKeys)
+	v, present := parent[k]
+	s1, s2 := hNumActionKeys+rng.Intn(hNumSponsors), hNumActionKeys+rng.Intn(hNumSponsors)
+	a := &hGenTx{sponsor: s1, pre: "1", keys: map[int]int{k: 7, s1: 5}}
+	b := &hGenTx{sponsor: s2, pre: "1", keys: map[int]int{k: 7, s2: 5}}
+	if present {
+		if rng.Bool() {
+			a.acts = [][]string{{fmt.Sprintf("d%d", k)}}
+		} else {
+			a.acts = [][]string{{fmt.Sprintf("p%d=%d", k, v+1+uint64(rng.Intn(3)))}}
+		}
+		b.acts = [][]string{{fmt.Sprintf("p%d=%d", k, v), fmt.Sprintf("g%d", k)}}
+	} else {
+		a.acts = [][]string{{fmt.Sprintf("p%d=%d", k, rng.Intn(4))}}
+		b.acts = [][]string{{fmt.Sprintf("d%d", k), fmt.Sprintf("g%d", k)}}
+	}
+	if rng.Chance(30) { // same thing inside one tx pair plus a reader afterwards is covered by random ops
+		b.acts = append(b.acts, []string{fmt.Sprintf("g%d", k)})
+	}
+	return a, b
+}
+
 var _ = utils.ToID
 var _ = internalfees.NewManager
